@@ -18,7 +18,7 @@ From Coq Require Import ZArith SpecFloat.
 Require Import OV.Base.Bytes OV.Base.Py OV.Base.PyInt OV.Base.Str OV.Base.Regex OV.Base.PyFloat.
 Require Import OV.Gen.C10_Units OV.Model.C10.
 Require Import OV.Gen.C10_Code.
-Require Import OV.Proofs.C10_Regex OV.Proofs.C10_Form OV.Proofs.C10_Float OV.Proofs.C10 OV.Proofs.C10_Qemu OV.Proofs.C10_Equiv.
+Require Import OV.Proofs.C10_Regex OV.Proofs.C10_Form OV.Proofs.C10_Float OV.Proofs.C10 OV.Proofs.C10_Qemu OV.Proofs.C10_Equiv OV.Proofs.C10_Examples.
 Open Scope Z_scope.
 
 (* the unit systems are exactly IEC, SI and mixed *)
